@@ -150,12 +150,13 @@ def c14_r1(ctx):
     if not news:
         raise AnchorMissing('ProcessingTimeWindowManager::process does not create slots')
     for bi, t in news:
-        st, en = render(strip(sym.operand(t['args'][1]))), render(strip(sym.operand(t['args'][2])))
-        ctx.inst('ProcessingTime::process|Slot::new', {'start': st[:100], 'end': en[:100]})
-        if 'self.size' not in en:
-            ctx.viol('%s|slot-end' % pr.path, t['at'], 'a processing-time slot is created with end = `%s` (must be start + size)' % en[:80], None)
-        if 'self.slide' not in st:
-            ctx.viol('%s|slot-start' % pr.path, t['at'], 'consecutive processing-time slots do not start `slide` apart (start = `%s`)' % st[:80], None)
+        sts = q.alternatives(facts, pr, sym.operand(t['args'][1]))
+        ens = q.alternatives(facts, pr, sym.operand(t['args'][2]), depth=1)
+        ctx.inst('ProcessingTime::process|Slot::new', {'start': [x[:100] for x in sts], 'end': [x[:100] for x in ens]})
+        if not all('self.size' in en for en in ens):
+            ctx.viol('%s|slot-end' % pr.path, t['at'], 'a processing-time slot is created with end = `%s` (must be start + size)' % ens[0][:80], None)
+        if not any('self.slide' in st for st in sts):
+            ctx.viol('%s|slot-start' % pr.path, t['at'], 'consecutive processing-time slots do not start `slide` apart (start = `%s`)' % sts[0][:80], None)
 
 
 @rule('C14', 'R2', 'all pending windows are flushed at the end of the iteration; only non-empty windows produce results')
@@ -241,10 +242,7 @@ def c12_r4(ctx):
     and the oldest slot receives every element only if the updated slots are 0..k. Both are shape facts; k itself is not decided."""
     facts = ctx.facts
     pr = facts.method(CWM, 'process', trait=WM)
-    fam = []
-    for g in facts.lib_fns():
-        if g.impl_adt == CWM and g.kind != 'closure' and g.name != 'clone':
-            fam.extend(facts.family(g))
+    fam = facts.family(pr)       # `process` with its private helpers inlined, and their closures
     sites = []
     for g in fam:
         s2 = q.sym(facts, g)
@@ -268,19 +266,20 @@ def c12_r4(ctx):
                 if st['k'] == 'assign' and any(isinstance(e, list) and e[0] == 'f' and e[2] == 'count' for e in st['lhs'][1:]):
                     rv = strip(s2.rvalue(st['rv']))
                     r = render(rv)
-                    tgt = [render(strip(i)) for c, i in _index_terms(s2.place(st['lhs'])) if c.endswith('self.ws')] or \
-                          [render(strip(i)) for c, i in _index_terms(rv) if c.endswith('self.ws')]
+                    tgt = [i for c, i in _index_terms(s2.place(st['lhs'])) if c.endswith('self.ws')] or \
+                          [i for c, i in _index_terms(rv) if c.endswith('self.ws')]
                     incs.append((b2, st, r, tgt))
-        ctx.inst('Count|accumulate|%s' % g.name, {'at': t['at'], 'slot index': idx_s[:100], 'count updates': [(x[2][:80], x[3]) for x in incs]})
-        good = [x for x in incs if x[2].startswith('AddWithOverflow(') and x[2].endswith('.count, 1_usize).0') and idx_s in x[3]]
+        ctx.inst('Count|accumulate|%s' % g.name, {'at': t['at'], 'slot index': idx_s[:100], 'count updates': [(x[2][:80], [render(strip(y))[:60] for y in x[3]]) for x in incs]})
+        good = [x for x in incs if x[2].startswith('AddWithOverflow(') and x[2].endswith('.count, 1_usize).0') and any(q.term_match(idx_term, y) for y in x[3])]
         if len(good) != 1 or len(incs) != 1:
             ctx.viol('%s|count-accounting' % g.path, t['at'],
                      'the slot fed by acc.process must have its count incremented by exactly one, once, on the same index '
-                     '(found updates %s for index `%s`)' % ([(x[2][:60], x[3]) for x in incs], idx_s[:60]), None)
+                     '(found updates %s for index `%s`)' % ([(x[2][:60], [render(strip(y))[:40] for y in x[3]]) for x in incs], idx_s[:60]), None)
             continue
         ib = good[0][0]
-        rets = g.return_blocks()
-        if not (all(g.dominates(ib, r) for r in rets) and all(g.dominates(bi, r) for r in rets)):
+        # control-equivalent: whenever one executes the other does (dominance one way, post-dominance the other way)
+        together = (ib == bi) or (g.dominates(ib, bi) and g.post_dominates(bi, ib)) or (g.dominates(bi, ib) and g.post_dominates(ib, bi))
+        if not together:
             ctx.viol('%s|count-accounting-conditional' % g.path, t['at'],
                      'the count increment and the accumulation of a slot are not both unconditional in %s: the count can drift from the '
                      'number of accumulated elements' % g.name, None)
@@ -322,7 +321,8 @@ def c12_r4(ctx):
             elif verdict == 'unknown':
                 ctx.note('C12.R4: index expression `%s` not classified (neither a range nor a constant)' % shown)
             # the update happens for every data element: only the loop condition and the data edge guard it
-            dnf = q.cond_of_block(facts, h, b3)
+            from ..pathcond import simplify as _simp
+            dnf = _simp(q.cond_of_block(facts, h, b3), merge_enums=True)
             extra = [a for c in dnf for a in c if not (a[0] in ('is', 'isin') and (a[1] == 'el' or 'Iterator::next' in a[1] or 'next(' in a[1]))]
             extra = [a for a in extra if not (a[0] == 'cmp' and 'len(' in a[1] + a[2])]
             if h.path == pr.path and extra:
